@@ -192,6 +192,51 @@ fn judge_typed_shape(c: &Case, shape: usize, l: &mut Local) {
     l.traces_validated += 1;
 }
 
+/// An accepted argument handed on by value: bound to a block local, passed to a user function, and substituted into
+/// an `asm` block whose instruction has a typed parameter of its own. The value that arrives is the value that was
+/// accepted (a negative number stays negative), so the inner decision is the inner type's on the same value.
+fn judge_typed_handed_on(c: &Case, inner: Ty, route: usize, l: &mut Local) {
+    let (prelude, operand) = spell(&c.v, c.spelling);
+    let body = match route {
+        0 => "{\n y = x\n asm { e {y} }\n }",
+        1 => "{\n y = idf(x)\n asm { e {y} }\n }",
+        _ => "asm { e {x} }",
+    };
+    let prog = format!("#fn idf(v) => v\n#ruledef {{\n t {{x: {}{}}} => {}\n e {{v: {}{}}} => 0xa5 @ v\n}}\n{}t {}\n", c.ty.ch(), c.n, body, inner.ch(), c.n, prelude, operand);
+    let acc = accepts(c.ty, c.n, &c.v) && accepts(inner, c.n, &c.v);
+    l.eval();
+    l.nontrivial(&("handed-on", route, c.ty, inner, c.n, c.v.to_string()));
+    l.class(if acc { "typed-handed-on-accept" } else { "typed-handed-on-reject" });
+    let obs = run::assemble_str(&prog, &run::Opts::default());
+    let expect_bits = format!("10100101{}", bits_of(&c.v, c.n));
+    let bad = if obs.panicked.is_some() {
+        Some("panic")
+    } else if acc {
+        if !obs.success() {
+            Some("in-range argument rejected")
+        } else if obs.bits != expect_bits {
+            Some("accepted argument emitted with wrong bits")
+        } else {
+            None
+        }
+    } else if obs.ok {
+        Some("out-of-range argument accepted")
+    } else if !obs.has_errors {
+        Some("rejected without an error")
+    } else {
+        None
+    };
+    if let Some(b) = bad {
+        l.violation(Violation {
+            property: ID,
+            key: format!("typed-handed-on:{}", b),
+            what: format!("{}: outer {}{} inner {}{} value {} via {}", b, c.ty.ch(), c.n, inner.ch(), c.n, c.v, ["a block local", "a user function and a block local", "asm text"][route]),
+            case: json!({"kind": "typed-handed-on", "program": prog, "expected": if acc { json!({"accept": true, "bits": expect_bits}) } else { json!({"accept": false}) }, "observed": obs.summary()}),
+        });
+    }
+    l.traces_validated += 1;
+}
+
 fn judge_data(n: usize, v: &Z, spelling: &'static str, l: &mut Local) {
     // unsized spellings only (dec / expr / const): hex and binary literals carry their own size
     let (prelude, operand) = spell(v, spelling);
@@ -315,6 +360,81 @@ pub fn run(ctx: &Ctx) -> Report {
         rep.absorb(par_cases(&sc, |c, l| judge_typed_shape(&c.0, c.1, l)));
     }
 
+    // accepted values handed on by value to a second typed parameter
+    {
+        let upto = if ctx.thorough { 9 } else { 6 };
+        let mut hc: Vec<(Case, Ty, usize)> = vec![];
+        for n in 1..=upto {
+            for ty in [Ty::U, Ty::S, Ty::I] {
+                for inner in [Ty::U, Ty::S, Ty::I] {
+                    for v in values_for(n, true) {
+                        for route in 0..3 {
+                            hc.push((Case { ty, n, v: v.clone(), spelling: "dec" }, inner, route));
+                        }
+                    }
+                }
+            }
+        }
+        rep.absorb(par_cases(&hc, |c, l| judge_typed_handed_on(&c.0, c.1, c.2, l)));
+    }
+    // the argument is the instruction's own final address, read directly or through a user function; the instruction
+    // stands behind one whose size is only known once a forward label is (so the address moves after the first pass):
+    // the range decision is about the final address
+    {
+        let mut ac: Vec<(usize, usize, usize)> = vec![];
+        for m in 0..=18usize {
+            for form in 0..3 {
+                for ty in 0..3 {
+                    ac.push((m, form, ty));
+                }
+            }
+        }
+        rep.absorb(par_cases(&ac, |(m, form, ty), l| {
+            let operand = ["here()", "$", "at(1) - 1"][*form];
+            let (tname, lo, hi) = [("u4", 0i64, 16i64), ("s4", -8, 8), ("i4", -8, 16)][*ty];
+            let mut src = format!("#fn here() => $\n#fn at(d) => $ + d\n#ruledef\n{{\n    jmp {{a: {}}} => 0xc @ a\n    pad {{n}} => n > 0 ? 0x0000 : 0x00\n}}\n", tname);
+            for _ in 0..*m {
+                src += "#d8 0\n";
+            }
+            src += &format!("pad far\njmp {}\nfar:\n", operand);
+            let addr = (*m + 2) as i64;
+            let acc = addr >= lo && addr < hi;
+            l.eval();
+            l.nontrivial(&(*m, *form, *ty));
+            l.class(if acc { "final-address-accept" } else { "final-address-reject" });
+            let expect_bits = format!("{}{}1100{}", "00000000".repeat(*m), "0000000000000000", bits_of(&Z::from(addr), 4));
+            for opts in [run::Opts::default(), run::Opts::iters(30)] {
+                let obs = run::assemble_str(&src, &opts);
+                let bad = if obs.panicked.is_some() {
+                    Some("panic")
+                } else if acc {
+                    if !obs.success() {
+                        Some("in-range argument rejected")
+                    } else if obs.bits != expect_bits {
+                        Some("accepted argument emitted with wrong bits")
+                    } else {
+                        None
+                    }
+                } else if obs.ok {
+                    Some("out-of-range argument accepted")
+                } else if !obs.has_errors {
+                    Some("rejected without an error")
+                } else {
+                    None
+                };
+                if let Some(b) = bad {
+                    l.violation(Violation {
+                        property: ID,
+                        key: format!("final-address:{}", b),
+                        what: format!("{}: `jmp {}` with {{a: {}}} at final address {}: {}", b, operand, tname, addr, src.replace('\n', " / ")),
+                        case: json!({"kind": "final-address", "program": src, "expected": if acc { json!({"accept": true, "bits": expect_bits}) } else { json!({"accept": false}) }, "observed": obs.summary()}),
+                    });
+                    break;
+                }
+            }
+            l.traces_validated += 1;
+        }));
+    }
     // data directives
     let mut dcases: Vec<(usize, Z, &'static str)> = vec![];
     for n in 0..=16usize {
